@@ -5,6 +5,7 @@ package main
 
 import (
 	"fmt"
+	"sync"
 	"go/token"
 	"go/types"
 	"os"
@@ -630,11 +631,29 @@ func (m *Machine) pos(p token.Pos) string {
 	return fmt.Sprintf("%s:%d", strings.TrimPrefix(ps.Filename, m.opts.RepoRoot+"/"), ps.Line)
 }
 
+var fnKeyCache sync.Map
+
 func fnKey(fn *ssa.Function) string {
-	if o := fn.Origin(); o != nil {
-		return o.String()
+	if k, ok := fnKeyCache.Load(fn); ok {
+		return k.(string)
 	}
-	return fn.String()
+	var k string
+	if o := fn.Origin(); o != nil {
+		k = o.String()
+	} else {
+		k = fn.String()
+	}
+	fnKeyCache.Store(fn, k)
+	return k
+}
+
+// Packages whose package-level variables are immutable tables or sentinel values: they are
+// initialised once per worker and their cells shared by all paths.
+var sharedInitPkgs = map[string]bool{
+	"unicode": true, "unicode/utf8": true, "strconv": true, "math": true, "math/bits": true, "errors": true,
+	"io": true, "io/fs": true, "internal/oserror": true, "encoding/binary": true, "encoding/hex": true,
+	"encoding/base64": true, "hash/crc32": true, "sort": true, "strings": true, "bytes": true, "bufio": true,
+	"unicode/utf16": true, "path/filepath": true, "path": true, "syscall": true, "context": true,
 }
 
 func (m *Machine) callSSA(caller *frame, pos token.Pos, fn *ssa.Function, args []Value, env []Value) Value {
@@ -860,6 +879,18 @@ func (m *Machine) ensureInit(pkg *ssa.Package) {
 		m.steps = saveSteps
 	}
 	m.pkgInit[pkg] = 2
+	if sharedInitPkgs[pkg.Pkg.Path()] {
+		if m.sharedCells == nil {
+			m.sharedCells = map[*ssa.Global]*Value{}
+			m.sharedPkgs = map[*ssa.Package]bool{}
+		}
+		m.sharedPkgs[pkg] = true
+		for _, mem := range pkg.Members {
+			if g, ok := mem.(*ssa.Global); ok {
+				m.sharedCells[g] = m.globals[g]
+			}
+		}
+	}
 }
 
 // runInitFrame runs a synthetic package initialiser leniently: an instruction that cannot be
